@@ -2,7 +2,7 @@
    (token lists compared here), and what the implementation delivered through the chosen channel must be what the
    model's evaluation of that tree yields. *)
 From Coq Require Import ZArith QArith List Bool.
-From PV Require Import Expr.Values Expr.Syntax Expr.Literals Expr.Sem Expr.Eval Expr.Grammar Const.Model Check.Compare.
+From PV Require Import Expr.Values Expr.Syntax Expr.Literals Expr.Sem Expr.Eval Expr.Grammar Expr.Parser Const.Model Check.Compare.
 Import ListNotations.
 
 (* where the expression stands in the definition text *)
@@ -66,10 +66,15 @@ Definition agree (m : mres) (o : obs) : bool :=
 Definition model (ds : list envdecl) (e : expr) : option res :=
   match build_env ds with Some g => Some (eval g e) | None => None end.
 
+(* the tokens fed are the model's rendering of the tree, and the deterministic PEG model parses them back to that tree *)
+Definition text_ok (e : expr) (toks : list token) : bool :=
+  tokens_eqb (render_min e) toks &&
+  match parse_expr toks with Some e' => expr_eqb e' (parenthesize e) | None => false end.
+
 Definition check_case (c : case) : bool :=
   match c with
   | (ds, e, toks, ch, o) =>
-      tokens_eqb (render_min e) toks &&
+      text_ok e toks &&
       match model ds e with
       | None => false
       | Some (Ok v) => agree (chan_model ch v) o
